@@ -47,7 +47,7 @@ def _tpl_dir():
 
 def _write_files(files):
     d = _tpl_dir()
-    for p in glob.glob(os.path.join(d, "*.html")):
+    for p in glob.glob(os.path.join(d, "*.html*")):
         os.remove(p)
     for name, src in files.items():
         with open(os.path.join(d, name), "w", encoding="utf-8", newline="") as f:
@@ -149,7 +149,7 @@ def check_stock(case, col=None):
         if any("\n" in seg.split("%}")[0] for seg in srcs.split("{%")[1:]):
             labels.append("multiline_tag")
         col.case(jhash(case), nt, sample={"files": {k: v[:300] for k, v in case["files"].items()}, "ctx": case["ctx"], "debug": case.get("debug"), "stock_outcome": (stock_side.get("output") or str(stock_side.get("exc")))[:150]} if nt else None, labels=labels)
-    for p in glob.glob(os.path.join(_tpl_dir(), "*.html")):
+    for p in glob.glob(os.path.join(_tpl_dir(), "*.html*")):
         os.remove(p)
     return fails
 
@@ -180,7 +180,13 @@ def family_sources(nodes, prefix, mid):
         if n["t"] == "include":
             counter[0] += 1
             name = "%s_inc%d.html" % (prefix, counter[0])
-            files[name] = P(region)
+            if n.get("fam"):
+                # the included template is itself an {% extends %} family (its block name may also exist in the
+                # including template's / the page's family: the families must stay independent)
+                files[name] = '{%% extends "%s_base" %%}{%% block %s %%}%s{%% endblock %%}' % (name, n["fam"], P(region))
+                files[name + "_base"] = "{%% block %s %%}junk%s{%% endblock %%}" % (n["fam"], prefix)
+            else:
+                files[name] = P(region)
             return '{%% include "%s" %%}' % name
         name, op = n["name"], n["op"]
         if op == "keep":
@@ -254,7 +260,7 @@ def check_compose(case, col=None):
             if case.get("nested_block"):
                 labels.append("block_inside_fill_or_slot")
             col.case(jhash([case, mode]), nt, sample={"mode": mode, "sources": {k: v[:250] for k, v in sources.items()}, "files": {k: v[:200] for k, v in list(files.items())[:4]}, "output": a[:150]} if nt else None, labels=labels)
-    for p in glob.glob(os.path.join(_tpl_dir(), "*.html")):
+    for p in glob.glob(os.path.join(_tpl_dir(), "*.html*")):
         os.remove(p)
     return fails
 
@@ -313,7 +319,10 @@ def compose_cases(draw):
             if op == "include" or not names:
                 if _has_slot(region):
                     continue
-                lst[i:j] = [{"t": "include", "c": region}]
+                inc = {"t": "include", "c": region}
+                if draw(st.integers(0, 99)) < 40:
+                    inc["fam"] = draw(st.sampled_from(["b1", "b2", "b3"]))
+                lst[i:j] = [inc]
             else:
                 bname = names.pop(draw(st.integers(0, len(names) - 1)))
                 lst[i:j] = [{"t": "block", "name": bname, "op": op, "c": region}]
